@@ -99,7 +99,8 @@ impl<L: Language, N: Analysis<L>> EGraph<L, N> {
             // l.m :: slots(id) -> X
             // r.m :: slots(id) -> X
             // perm :: slots(id) -> slots(id)
-            let perm = l.m.compose(&r.m.inverse());
+            // `proof` shows id[l.m] = id[r.m], i.e. id[identity] = id[r.m * l.m^-1].
+            let perm = r.m.compose(&l.m.inverse());
             if CHECKS {
                 assert!(perm.is_perm());
                 assert_eq!(&perm.keys(), &self.classes[&id].slots);
